@@ -764,6 +764,27 @@ package writer
 //@   ensures[C12] m.w.err == nil ==> STK7(m.w)
 //@   ensures[C12] (old(m.w.err) != nil ==> m.w.err == old(m.w.err)) && (result != nil ==> m.w.err != nil)
 
+// ---- constructors: the base case of the induction over call sequences (C12): a new writer
+// satisfies the writer invariant with no error and empty stacks (hence every STK clause)
+//@ func newWriter
+//@   safety[C12]
+//@   modifies @WRITER
+//@   modifies @BUF
+//@   ensures[C12] result != nil && WI(result) && result.err == nil && NS(result) == 0 && NE(result) == 0 && NF(result) == 0
+//@   ensures[C12] !result.writerState.releaseWriter && (result.writerState.releaseState <==> release)
+
+//@ func New
+//@   safety[C12]
+//@   modifies @WRITER
+//@   modifies @BUF
+//@   ensures[C12] isptr(result, writer) && WI(unbox(result, writer)) && unbox(result, writer).err == nil && NS(unbox(result, writer)) == 0 && NE(unbox(result, writer)) == 0 && NF(unbox(result, writer)) == 0
+
+//@ func NewBuffer
+//@   safety[C12]
+//@   modifies @WRITER
+//@   modifies @BUF
+//@   ensures[C12] isptr(result, writer) && WI(unbox(result, writer)) && unbox(result, writer).err == nil && NS(unbox(result, writer)) == 0 && NE(unbox(result, writer)) == 0 && NF(unbox(result, writer)) == 0
+
 // ---- handles (generated by /verif/tools/gen_writer_contracts.py)
 
 //@ func (ValueWriter).Build
@@ -800,6 +821,8 @@ package writer
 //@   requires w.w.err == nil ==> STK7(w.w)
 //@   modifies @WRITER
 //@   modifies @BUF
+//@   preserves result == nil : @NOTSTACKS
+//@   ensures[C01] old(w.w.err) == nil && result == nil ==> NS(w.w) == old(NS(w.w)) + 1 && SE(w.w, NS(w.w) - 1).type_ == 1 && SE(w.w, NS(w.w) - 1).start == old(BL(w.w)) && SE(w.w, NS(w.w) - 1).tableStart == BL(w.w)
 //@   ensures[C12] WI(w.w)
 //@   ensures[C12] w.w.err == nil ==> STK1(w.w)
 //@   ensures[C12] w.w.err == nil ==> STK2(w.w)
@@ -822,6 +845,8 @@ package writer
 //@   requires w.w.err == nil ==> STK7(w.w)
 //@   modifies @WRITER
 //@   modifies @BUF
+//@   preserves result == nil : @NOTSTACKS
+//@   ensures[C01] old(w.w.err) == nil && result == nil ==> NS(w.w) == old(NS(w.w)) + 1 && SE(w.w, NS(w.w) - 1).type_ == 1 && SE(w.w, NS(w.w) - 1).start == old(BL(w.w)) && SE(w.w, NS(w.w) - 1).tableStart == BL(w.w)
 //@   ensures[C12] WI(w.w)
 //@   ensures[C12] w.w.err == nil ==> STK1(w.w)
 //@   ensures[C12] w.w.err == nil ==> STK2(w.w)
@@ -844,6 +869,8 @@ package writer
 //@   requires w.w.err == nil ==> STK7(w.w)
 //@   modifies @WRITER
 //@   modifies @BUF
+//@   preserves result == nil : @NOTSTACKS
+//@   ensures[C01] old(w.w.err) == nil && result == nil ==> NS(w.w) == old(NS(w.w)) + 1 && SE(w.w, NS(w.w) - 1).type_ == 1 && SE(w.w, NS(w.w) - 1).start == old(BL(w.w)) && SE(w.w, NS(w.w) - 1).tableStart == BL(w.w)
 //@   ensures[C12] WI(w.w)
 //@   ensures[C12] w.w.err == nil ==> STK1(w.w)
 //@   ensures[C12] w.w.err == nil ==> STK2(w.w)
@@ -866,6 +893,8 @@ package writer
 //@   requires w.w.err == nil ==> STK7(w.w)
 //@   modifies @WRITER
 //@   modifies @BUF
+//@   preserves result == nil : @NOTSTACKS
+//@   ensures[C01] old(w.w.err) == nil && result == nil ==> NS(w.w) == old(NS(w.w)) + 1 && SE(w.w, NS(w.w) - 1).type_ == 1 && SE(w.w, NS(w.w) - 1).start == old(BL(w.w)) && SE(w.w, NS(w.w) - 1).tableStart == BL(w.w)
 //@   ensures[C12] WI(w.w)
 //@   ensures[C12] w.w.err == nil ==> STK1(w.w)
 //@   ensures[C12] w.w.err == nil ==> STK2(w.w)
@@ -888,6 +917,8 @@ package writer
 //@   requires w.w.err == nil ==> STK7(w.w)
 //@   modifies @WRITER
 //@   modifies @BUF
+//@   preserves result == nil : @NOTSTACKS
+//@   ensures[C01] old(w.w.err) == nil && result == nil ==> NS(w.w) == old(NS(w.w)) + 1 && SE(w.w, NS(w.w) - 1).type_ == 1 && SE(w.w, NS(w.w) - 1).start == old(BL(w.w)) && SE(w.w, NS(w.w) - 1).tableStart == BL(w.w)
 //@   ensures[C12] WI(w.w)
 //@   ensures[C12] w.w.err == nil ==> STK1(w.w)
 //@   ensures[C12] w.w.err == nil ==> STK2(w.w)
@@ -910,6 +941,8 @@ package writer
 //@   requires w.w.err == nil ==> STK7(w.w)
 //@   modifies @WRITER
 //@   modifies @BUF
+//@   preserves result == nil : @NOTSTACKS
+//@   ensures[C01] old(w.w.err) == nil && result == nil ==> NS(w.w) == old(NS(w.w)) + 1 && SE(w.w, NS(w.w) - 1).type_ == 1 && SE(w.w, NS(w.w) - 1).start == old(BL(w.w)) && SE(w.w, NS(w.w) - 1).tableStart == BL(w.w)
 //@   ensures[C12] WI(w.w)
 //@   ensures[C12] w.w.err == nil ==> STK1(w.w)
 //@   ensures[C12] w.w.err == nil ==> STK2(w.w)
@@ -932,6 +965,8 @@ package writer
 //@   requires w.w.err == nil ==> STK7(w.w)
 //@   modifies @WRITER
 //@   modifies @BUF
+//@   preserves result == nil : @NOTSTACKS
+//@   ensures[C01] old(w.w.err) == nil && result == nil ==> NS(w.w) == old(NS(w.w)) + 1 && SE(w.w, NS(w.w) - 1).type_ == 1 && SE(w.w, NS(w.w) - 1).start == old(BL(w.w)) && SE(w.w, NS(w.w) - 1).tableStart == BL(w.w)
 //@   ensures[C12] WI(w.w)
 //@   ensures[C12] w.w.err == nil ==> STK1(w.w)
 //@   ensures[C12] w.w.err == nil ==> STK2(w.w)
@@ -954,6 +989,8 @@ package writer
 //@   requires w.w.err == nil ==> STK7(w.w)
 //@   modifies @WRITER
 //@   modifies @BUF
+//@   preserves result == nil : @NOTSTACKS
+//@   ensures[C01] old(w.w.err) == nil && result == nil ==> NS(w.w) == old(NS(w.w)) + 1 && SE(w.w, NS(w.w) - 1).type_ == 1 && SE(w.w, NS(w.w) - 1).start == old(BL(w.w)) && SE(w.w, NS(w.w) - 1).tableStart == BL(w.w)
 //@   ensures[C12] WI(w.w)
 //@   ensures[C12] w.w.err == nil ==> STK1(w.w)
 //@   ensures[C12] w.w.err == nil ==> STK2(w.w)
@@ -976,6 +1013,8 @@ package writer
 //@   requires w.w.err == nil ==> STK7(w.w)
 //@   modifies @WRITER
 //@   modifies @BUF
+//@   preserves result == nil : @NOTSTACKS
+//@   ensures[C01] old(w.w.err) == nil && result == nil ==> NS(w.w) == old(NS(w.w)) + 1 && SE(w.w, NS(w.w) - 1).type_ == 1 && SE(w.w, NS(w.w) - 1).start == old(BL(w.w)) && SE(w.w, NS(w.w) - 1).tableStart == BL(w.w)
 //@   ensures[C12] WI(w.w)
 //@   ensures[C12] w.w.err == nil ==> STK1(w.w)
 //@   ensures[C12] w.w.err == nil ==> STK2(w.w)
@@ -998,6 +1037,8 @@ package writer
 //@   requires w.w.err == nil ==> STK7(w.w)
 //@   modifies @WRITER
 //@   modifies @BUF
+//@   preserves result == nil : @NOTSTACKS
+//@   ensures[C01] old(w.w.err) == nil && result == nil ==> NS(w.w) == old(NS(w.w)) + 1 && SE(w.w, NS(w.w) - 1).type_ == 1 && SE(w.w, NS(w.w) - 1).start == old(BL(w.w)) && SE(w.w, NS(w.w) - 1).tableStart == BL(w.w)
 //@   ensures[C12] WI(w.w)
 //@   ensures[C12] w.w.err == nil ==> STK1(w.w)
 //@   ensures[C12] w.w.err == nil ==> STK2(w.w)
@@ -1020,6 +1061,8 @@ package writer
 //@   requires w.w.err == nil ==> STK7(w.w)
 //@   modifies @WRITER
 //@   modifies @BUF
+//@   preserves result == nil : @NOTSTACKS
+//@   ensures[C01] old(w.w.err) == nil && result == nil ==> NS(w.w) == old(NS(w.w)) + 1 && SE(w.w, NS(w.w) - 1).type_ == 1 && SE(w.w, NS(w.w) - 1).start == old(BL(w.w)) && SE(w.w, NS(w.w) - 1).tableStart == BL(w.w)
 //@   ensures[C12] WI(w.w)
 //@   ensures[C12] w.w.err == nil ==> STK1(w.w)
 //@   ensures[C12] w.w.err == nil ==> STK2(w.w)
@@ -1042,6 +1085,8 @@ package writer
 //@   requires w.w.err == nil ==> STK7(w.w)
 //@   modifies @WRITER
 //@   modifies @BUF
+//@   preserves result == nil : @NOTSTACKS
+//@   ensures[C01] old(w.w.err) == nil && result == nil ==> NS(w.w) == old(NS(w.w)) + 1 && SE(w.w, NS(w.w) - 1).type_ == 1 && SE(w.w, NS(w.w) - 1).start == old(BL(w.w)) && SE(w.w, NS(w.w) - 1).tableStart == BL(w.w)
 //@   ensures[C12] WI(w.w)
 //@   ensures[C12] w.w.err == nil ==> STK1(w.w)
 //@   ensures[C12] w.w.err == nil ==> STK2(w.w)
@@ -1064,6 +1109,8 @@ package writer
 //@   requires w.w.err == nil ==> STK7(w.w)
 //@   modifies @WRITER
 //@   modifies @BUF
+//@   preserves result == nil : @NOTSTACKS
+//@   ensures[C01] old(w.w.err) == nil && result == nil ==> NS(w.w) == old(NS(w.w)) + 1 && SE(w.w, NS(w.w) - 1).type_ == 1 && SE(w.w, NS(w.w) - 1).start == old(BL(w.w)) && SE(w.w, NS(w.w) - 1).tableStart == BL(w.w)
 //@   ensures[C12] WI(w.w)
 //@   ensures[C12] w.w.err == nil ==> STK1(w.w)
 //@   ensures[C12] w.w.err == nil ==> STK2(w.w)
@@ -1086,6 +1133,8 @@ package writer
 //@   requires w.w.err == nil ==> STK7(w.w)
 //@   modifies @WRITER
 //@   modifies @BUF
+//@   preserves result == nil : @NOTSTACKS
+//@   ensures[C01] old(w.w.err) == nil && result == nil ==> NS(w.w) == old(NS(w.w)) + 1 && SE(w.w, NS(w.w) - 1).type_ == 1 && SE(w.w, NS(w.w) - 1).start == old(BL(w.w)) && SE(w.w, NS(w.w) - 1).tableStart == BL(w.w)
 //@   ensures[C12] WI(w.w)
 //@   ensures[C12] w.w.err == nil ==> STK1(w.w)
 //@   ensures[C12] w.w.err == nil ==> STK2(w.w)
@@ -1108,6 +1157,8 @@ package writer
 //@   requires w.w.err == nil ==> STK7(w.w)
 //@   modifies @WRITER
 //@   modifies @BUF
+//@   preserves result == nil : @NOTSTACKS
+//@   ensures[C01] old(w.w.err) == nil && result == nil ==> NS(w.w) == old(NS(w.w)) + 1 && SE(w.w, NS(w.w) - 1).type_ == 1 && SE(w.w, NS(w.w) - 1).start == old(BL(w.w)) && SE(w.w, NS(w.w) - 1).tableStart == BL(w.w)
 //@   ensures[C12] WI(w.w)
 //@   ensures[C12] w.w.err == nil ==> STK1(w.w)
 //@   ensures[C12] w.w.err == nil ==> STK2(w.w)
@@ -1130,6 +1181,8 @@ package writer
 //@   requires w.w.err == nil ==> STK7(w.w)
 //@   modifies @WRITER
 //@   modifies @BUF
+//@   preserves result == nil : @NOTSTACKS
+//@   ensures[C01] old(w.w.err) == nil && result == nil ==> NS(w.w) == old(NS(w.w)) + 1 && SE(w.w, NS(w.w) - 1).type_ == 1 && SE(w.w, NS(w.w) - 1).start == old(BL(w.w)) && SE(w.w, NS(w.w) - 1).tableStart == BL(w.w)
 //@   ensures[C12] WI(w.w)
 //@   ensures[C12] w.w.err == nil ==> STK1(w.w)
 //@   ensures[C12] w.w.err == nil ==> STK2(w.w)
@@ -1265,6 +1318,7 @@ package writer
 //@   requires l.w.err == nil ==> STK7(l.w)
 //@   modifies @WRITER
 //@   modifies @BUF
+//@   ensures[C01] old(l.w.err) == nil && result == nil ==> NE(l.w) == old(NE(l.w)) + 1 && NS(l.w) == old(NS(l.w))
 //@   ensures[C12] WI(l.w)
 //@   ensures[C12] l.w.err == nil ==> STK1(l.w)
 //@   ensures[C12] l.w.err == nil ==> STK2(l.w)
@@ -1287,6 +1341,7 @@ package writer
 //@   requires l.w.err == nil ==> STK7(l.w)
 //@   modifies @WRITER
 //@   modifies @BUF
+//@   ensures[C01] old(l.w.err) == nil && result == nil ==> NE(l.w) == old(NE(l.w)) + 1 && NS(l.w) == old(NS(l.w))
 //@   ensures[C12] WI(l.w)
 //@   ensures[C12] l.w.err == nil ==> STK1(l.w)
 //@   ensures[C12] l.w.err == nil ==> STK2(l.w)
@@ -1309,6 +1364,7 @@ package writer
 //@   requires l.w.err == nil ==> STK7(l.w)
 //@   modifies @WRITER
 //@   modifies @BUF
+//@   ensures[C01] old(l.w.err) == nil && result == nil ==> NE(l.w) == old(NE(l.w)) + 1 && NS(l.w) == old(NS(l.w))
 //@   ensures[C12] WI(l.w)
 //@   ensures[C12] l.w.err == nil ==> STK1(l.w)
 //@   ensures[C12] l.w.err == nil ==> STK2(l.w)
@@ -1331,6 +1387,7 @@ package writer
 //@   requires l.w.err == nil ==> STK7(l.w)
 //@   modifies @WRITER
 //@   modifies @BUF
+//@   ensures[C01] old(l.w.err) == nil && result == nil ==> NE(l.w) == old(NE(l.w)) + 1 && NS(l.w) == old(NS(l.w))
 //@   ensures[C12] WI(l.w)
 //@   ensures[C12] l.w.err == nil ==> STK1(l.w)
 //@   ensures[C12] l.w.err == nil ==> STK2(l.w)
@@ -1353,6 +1410,7 @@ package writer
 //@   requires l.w.err == nil ==> STK7(l.w)
 //@   modifies @WRITER
 //@   modifies @BUF
+//@   ensures[C01] old(l.w.err) == nil && result == nil ==> NE(l.w) == old(NE(l.w)) + 1 && NS(l.w) == old(NS(l.w))
 //@   ensures[C12] WI(l.w)
 //@   ensures[C12] l.w.err == nil ==> STK1(l.w)
 //@   ensures[C12] l.w.err == nil ==> STK2(l.w)
@@ -1375,6 +1433,7 @@ package writer
 //@   requires l.w.err == nil ==> STK7(l.w)
 //@   modifies @WRITER
 //@   modifies @BUF
+//@   ensures[C01] old(l.w.err) == nil && result == nil ==> NE(l.w) == old(NE(l.w)) + 1 && NS(l.w) == old(NS(l.w))
 //@   ensures[C12] WI(l.w)
 //@   ensures[C12] l.w.err == nil ==> STK1(l.w)
 //@   ensures[C12] l.w.err == nil ==> STK2(l.w)
@@ -1397,6 +1456,7 @@ package writer
 //@   requires l.w.err == nil ==> STK7(l.w)
 //@   modifies @WRITER
 //@   modifies @BUF
+//@   ensures[C01] old(l.w.err) == nil && result == nil ==> NE(l.w) == old(NE(l.w)) + 1 && NS(l.w) == old(NS(l.w))
 //@   ensures[C12] WI(l.w)
 //@   ensures[C12] l.w.err == nil ==> STK1(l.w)
 //@   ensures[C12] l.w.err == nil ==> STK2(l.w)
@@ -1419,6 +1479,7 @@ package writer
 //@   requires l.w.err == nil ==> STK7(l.w)
 //@   modifies @WRITER
 //@   modifies @BUF
+//@   ensures[C01] old(l.w.err) == nil && result == nil ==> NE(l.w) == old(NE(l.w)) + 1 && NS(l.w) == old(NS(l.w))
 //@   ensures[C12] WI(l.w)
 //@   ensures[C12] l.w.err == nil ==> STK1(l.w)
 //@   ensures[C12] l.w.err == nil ==> STK2(l.w)
@@ -1441,6 +1502,7 @@ package writer
 //@   requires l.w.err == nil ==> STK7(l.w)
 //@   modifies @WRITER
 //@   modifies @BUF
+//@   ensures[C01] old(l.w.err) == nil && result == nil ==> NE(l.w) == old(NE(l.w)) + 1 && NS(l.w) == old(NS(l.w))
 //@   ensures[C12] WI(l.w)
 //@   ensures[C12] l.w.err == nil ==> STK1(l.w)
 //@   ensures[C12] l.w.err == nil ==> STK2(l.w)
@@ -1463,6 +1525,7 @@ package writer
 //@   requires l.w.err == nil ==> STK7(l.w)
 //@   modifies @WRITER
 //@   modifies @BUF
+//@   ensures[C01] old(l.w.err) == nil && result == nil ==> NE(l.w) == old(NE(l.w)) + 1 && NS(l.w) == old(NS(l.w))
 //@   ensures[C12] WI(l.w)
 //@   ensures[C12] l.w.err == nil ==> STK1(l.w)
 //@   ensures[C12] l.w.err == nil ==> STK2(l.w)
@@ -1485,6 +1548,7 @@ package writer
 //@   requires l.w.err == nil ==> STK7(l.w)
 //@   modifies @WRITER
 //@   modifies @BUF
+//@   ensures[C01] old(l.w.err) == nil && result == nil ==> NE(l.w) == old(NE(l.w)) + 1 && NS(l.w) == old(NS(l.w))
 //@   ensures[C12] WI(l.w)
 //@   ensures[C12] l.w.err == nil ==> STK1(l.w)
 //@   ensures[C12] l.w.err == nil ==> STK2(l.w)
@@ -1507,6 +1571,7 @@ package writer
 //@   requires l.w.err == nil ==> STK7(l.w)
 //@   modifies @WRITER
 //@   modifies @BUF
+//@   ensures[C01] old(l.w.err) == nil && result == nil ==> NE(l.w) == old(NE(l.w)) + 1 && NS(l.w) == old(NS(l.w))
 //@   ensures[C12] WI(l.w)
 //@   ensures[C12] l.w.err == nil ==> STK1(l.w)
 //@   ensures[C12] l.w.err == nil ==> STK2(l.w)
@@ -1529,6 +1594,7 @@ package writer
 //@   requires l.w.err == nil ==> STK7(l.w)
 //@   modifies @WRITER
 //@   modifies @BUF
+//@   ensures[C01] old(l.w.err) == nil && result == nil ==> NE(l.w) == old(NE(l.w)) + 1 && NS(l.w) == old(NS(l.w))
 //@   ensures[C12] WI(l.w)
 //@   ensures[C12] l.w.err == nil ==> STK1(l.w)
 //@   ensures[C12] l.w.err == nil ==> STK2(l.w)
@@ -1551,6 +1617,7 @@ package writer
 //@   requires l.w.err == nil ==> STK7(l.w)
 //@   modifies @WRITER
 //@   modifies @BUF
+//@   ensures[C01] old(l.w.err) == nil && result == nil ==> NE(l.w) == old(NE(l.w)) + 1 && NS(l.w) == old(NS(l.w))
 //@   ensures[C12] WI(l.w)
 //@   ensures[C12] l.w.err == nil ==> STK1(l.w)
 //@   ensures[C12] l.w.err == nil ==> STK2(l.w)
@@ -1573,6 +1640,7 @@ package writer
 //@   requires l.w.err == nil ==> STK7(l.w)
 //@   modifies @WRITER
 //@   modifies @BUF
+//@   ensures[C01] old(l.w.err) == nil && result == nil ==> NE(l.w) == old(NE(l.w)) + 1 && NS(l.w) == old(NS(l.w))
 //@   ensures[C12] WI(l.w)
 //@   ensures[C12] l.w.err == nil ==> STK1(l.w)
 //@   ensures[C12] l.w.err == nil ==> STK2(l.w)
@@ -1595,6 +1663,7 @@ package writer
 //@   requires l.w.err == nil ==> STK7(l.w)
 //@   modifies @WRITER
 //@   modifies @BUF
+//@   ensures[C01] old(l.w.err) == nil && result == nil ==> NE(l.w) == old(NE(l.w)) + 1 && NS(l.w) == old(NS(l.w))
 //@   ensures[C12] WI(l.w)
 //@   ensures[C12] l.w.err == nil ==> STK1(l.w)
 //@   ensures[C12] l.w.err == nil ==> STK2(l.w)
@@ -1738,6 +1807,7 @@ package writer
 //@   requires f.w.err == nil ==> STK7(f.w)
 //@   modifies @WRITER
 //@   modifies @BUF
+//@   ensures[C01] old(f.w.err) == nil && result == nil ==> NF(f.w) == old(NF(f.w)) + 1 && NS(f.w) == old(NS(f.w))
 //@   ensures[C12] WI(f.w)
 //@   ensures[C12] f.w.err == nil ==> STK1(f.w)
 //@   ensures[C12] f.w.err == nil ==> STK2(f.w)
@@ -1760,6 +1830,7 @@ package writer
 //@   requires f.w.err == nil ==> STK7(f.w)
 //@   modifies @WRITER
 //@   modifies @BUF
+//@   ensures[C01] old(f.w.err) == nil && result == nil ==> NF(f.w) == old(NF(f.w)) + 1 && NS(f.w) == old(NS(f.w))
 //@   ensures[C12] WI(f.w)
 //@   ensures[C12] f.w.err == nil ==> STK1(f.w)
 //@   ensures[C12] f.w.err == nil ==> STK2(f.w)
@@ -1782,6 +1853,7 @@ package writer
 //@   requires f.w.err == nil ==> STK7(f.w)
 //@   modifies @WRITER
 //@   modifies @BUF
+//@   ensures[C01] old(f.w.err) == nil && result == nil ==> NF(f.w) == old(NF(f.w)) + 1 && NS(f.w) == old(NS(f.w))
 //@   ensures[C12] WI(f.w)
 //@   ensures[C12] f.w.err == nil ==> STK1(f.w)
 //@   ensures[C12] f.w.err == nil ==> STK2(f.w)
@@ -1804,6 +1876,7 @@ package writer
 //@   requires f.w.err == nil ==> STK7(f.w)
 //@   modifies @WRITER
 //@   modifies @BUF
+//@   ensures[C01] old(f.w.err) == nil && result == nil ==> NF(f.w) == old(NF(f.w)) + 1 && NS(f.w) == old(NS(f.w))
 //@   ensures[C12] WI(f.w)
 //@   ensures[C12] f.w.err == nil ==> STK1(f.w)
 //@   ensures[C12] f.w.err == nil ==> STK2(f.w)
@@ -1826,6 +1899,7 @@ package writer
 //@   requires f.w.err == nil ==> STK7(f.w)
 //@   modifies @WRITER
 //@   modifies @BUF
+//@   ensures[C01] old(f.w.err) == nil && result == nil ==> NF(f.w) == old(NF(f.w)) + 1 && NS(f.w) == old(NS(f.w))
 //@   ensures[C12] WI(f.w)
 //@   ensures[C12] f.w.err == nil ==> STK1(f.w)
 //@   ensures[C12] f.w.err == nil ==> STK2(f.w)
@@ -1848,6 +1922,7 @@ package writer
 //@   requires f.w.err == nil ==> STK7(f.w)
 //@   modifies @WRITER
 //@   modifies @BUF
+//@   ensures[C01] old(f.w.err) == nil && result == nil ==> NF(f.w) == old(NF(f.w)) + 1 && NS(f.w) == old(NS(f.w))
 //@   ensures[C12] WI(f.w)
 //@   ensures[C12] f.w.err == nil ==> STK1(f.w)
 //@   ensures[C12] f.w.err == nil ==> STK2(f.w)
@@ -1870,6 +1945,7 @@ package writer
 //@   requires f.w.err == nil ==> STK7(f.w)
 //@   modifies @WRITER
 //@   modifies @BUF
+//@   ensures[C01] old(f.w.err) == nil && result == nil ==> NF(f.w) == old(NF(f.w)) + 1 && NS(f.w) == old(NS(f.w))
 //@   ensures[C12] WI(f.w)
 //@   ensures[C12] f.w.err == nil ==> STK1(f.w)
 //@   ensures[C12] f.w.err == nil ==> STK2(f.w)
@@ -1892,6 +1968,7 @@ package writer
 //@   requires f.w.err == nil ==> STK7(f.w)
 //@   modifies @WRITER
 //@   modifies @BUF
+//@   ensures[C01] old(f.w.err) == nil && result == nil ==> NF(f.w) == old(NF(f.w)) + 1 && NS(f.w) == old(NS(f.w))
 //@   ensures[C12] WI(f.w)
 //@   ensures[C12] f.w.err == nil ==> STK1(f.w)
 //@   ensures[C12] f.w.err == nil ==> STK2(f.w)
@@ -1914,6 +1991,7 @@ package writer
 //@   requires f.w.err == nil ==> STK7(f.w)
 //@   modifies @WRITER
 //@   modifies @BUF
+//@   ensures[C01] old(f.w.err) == nil && result == nil ==> NF(f.w) == old(NF(f.w)) + 1 && NS(f.w) == old(NS(f.w))
 //@   ensures[C12] WI(f.w)
 //@   ensures[C12] f.w.err == nil ==> STK1(f.w)
 //@   ensures[C12] f.w.err == nil ==> STK2(f.w)
@@ -1936,6 +2014,7 @@ package writer
 //@   requires f.w.err == nil ==> STK7(f.w)
 //@   modifies @WRITER
 //@   modifies @BUF
+//@   ensures[C01] old(f.w.err) == nil && result == nil ==> NF(f.w) == old(NF(f.w)) + 1 && NS(f.w) == old(NS(f.w))
 //@   ensures[C12] WI(f.w)
 //@   ensures[C12] f.w.err == nil ==> STK1(f.w)
 //@   ensures[C12] f.w.err == nil ==> STK2(f.w)
@@ -1958,6 +2037,7 @@ package writer
 //@   requires f.w.err == nil ==> STK7(f.w)
 //@   modifies @WRITER
 //@   modifies @BUF
+//@   ensures[C01] old(f.w.err) == nil && result == nil ==> NF(f.w) == old(NF(f.w)) + 1 && NS(f.w) == old(NS(f.w))
 //@   ensures[C12] WI(f.w)
 //@   ensures[C12] f.w.err == nil ==> STK1(f.w)
 //@   ensures[C12] f.w.err == nil ==> STK2(f.w)
@@ -1980,6 +2060,7 @@ package writer
 //@   requires f.w.err == nil ==> STK7(f.w)
 //@   modifies @WRITER
 //@   modifies @BUF
+//@   ensures[C01] old(f.w.err) == nil && result == nil ==> NF(f.w) == old(NF(f.w)) + 1 && NS(f.w) == old(NS(f.w))
 //@   ensures[C12] WI(f.w)
 //@   ensures[C12] f.w.err == nil ==> STK1(f.w)
 //@   ensures[C12] f.w.err == nil ==> STK2(f.w)
@@ -2002,6 +2083,7 @@ package writer
 //@   requires f.w.err == nil ==> STK7(f.w)
 //@   modifies @WRITER
 //@   modifies @BUF
+//@   ensures[C01] old(f.w.err) == nil && result == nil ==> NF(f.w) == old(NF(f.w)) + 1 && NS(f.w) == old(NS(f.w))
 //@   ensures[C12] WI(f.w)
 //@   ensures[C12] f.w.err == nil ==> STK1(f.w)
 //@   ensures[C12] f.w.err == nil ==> STK2(f.w)
@@ -2024,6 +2106,7 @@ package writer
 //@   requires f.w.err == nil ==> STK7(f.w)
 //@   modifies @WRITER
 //@   modifies @BUF
+//@   ensures[C01] old(f.w.err) == nil && result == nil ==> NF(f.w) == old(NF(f.w)) + 1 && NS(f.w) == old(NS(f.w))
 //@   ensures[C12] WI(f.w)
 //@   ensures[C12] f.w.err == nil ==> STK1(f.w)
 //@   ensures[C12] f.w.err == nil ==> STK2(f.w)
@@ -2046,6 +2129,7 @@ package writer
 //@   requires f.w.err == nil ==> STK7(f.w)
 //@   modifies @WRITER
 //@   modifies @BUF
+//@   ensures[C01] old(f.w.err) == nil && result == nil ==> NF(f.w) == old(NF(f.w)) + 1 && NS(f.w) == old(NS(f.w))
 //@   ensures[C12] WI(f.w)
 //@   ensures[C12] f.w.err == nil ==> STK1(f.w)
 //@   ensures[C12] f.w.err == nil ==> STK2(f.w)
